@@ -203,14 +203,19 @@ func c07Child(t *rapid.T, o C07TreeOpts, c *ref.RouteNode) {
 		c.LegacyMatchRE = c07LegacyMatchRE(t)
 	case style == 8:
 		c.LegacyMatch = c07LegacyMatch(t)
-		c.Matchers = append(c.Matchers, UniMatcher().Draw(t, "m"))
+		// 1-3 new-style matchers next to the legacy ones (three make a decoded slice with spare capacity)
+		for i, n := 0, rapid.IntRange(1, 3).Draw(t, "nMixed"); i < n; i++ {
+			c.Matchers = append(c.Matchers, UniMatcher().Draw(t, "m"))
+		}
 	default:
 		c.LegacyMatchRE = c07LegacyMatchRE(t)
 		if rapid.Bool().Draw(t, "alsoMatch") {
 			c.LegacyMatch = c07LegacyMatch(t)
 		}
 		if rapid.Bool().Draw(t, "alsoMatchers") {
-			c.Matchers = append(c.Matchers, UniMatcher().Draw(t, "m"))
+			for i, n := 0, rapid.IntRange(1, 3).Draw(t, "nMixed"); i < n; i++ {
+				c.Matchers = append(c.Matchers, UniMatcher().Draw(t, "m"))
+			}
 		}
 	}
 	c.Continue = c07Chance(t, 3, "continue")
